@@ -245,7 +245,7 @@ func PyPISpecifier() *rapid.Generator[string] {
 			case (op == "==" || op == "!=") && rapid.IntRange(0, 3).Draw(t, "star") == 0:
 				v += ".*"
 			case rapid.IntRange(0, 9).Draw(t, "suffix") < 2:
-				v += rapid.SampledFrom([]string{"a1", "b2", "rc1", ".post1", ".dev1", "a0", ".post0"}).Draw(t, "sfx")
+				v += rapid.SampledFrom([]string{"a1", "b2", "rc1", ".post1", ".dev1", "a0", ".post0", "A1", "RC1", "_rc_2", ".POST1", "-dev2"}).Draw(t, "sfx")
 			}
 			sp := rapid.SampledFrom([]string{"", "", " "}).Draw(t, "sp")
 			cs = append(cs, op+sp+v)
